@@ -408,10 +408,26 @@ def run_seeds(props: list[str] | None = None, jobs: int = 16) -> dict:
             "details": [{"seed": r[0], "status": r[1], "info": r[2]} for r in results]}
 
 
+def _base_clean(prop: str):
+    import subprocess
+    r = subprocess.run([sys.executable, "-m", "opstatic.run", prop, "--tier", "quick", "--no-evidence"], cwd=os.path.dirname(os.path.dirname(
+        os.path.dirname(os.path.abspath(__file__)))), capture_output=True, text=True)
+    return prop, r.returncode, [ln for ln in r.stdout.splitlines() if ln.startswith(("VIOLATION", "ANALYSIS-ERROR", "["))][:3]
+
+
 def main(argv=None) -> int:
     props = (argv or sys.argv[1:]) or None
-    res = run_audit(props)
     bad = 0
+    # the audit compares findings of a variant with those of today's tree, so it is blind to a rule that already fires on today's
+    # tree: check first that every property's quick run is clean (exit 0) there
+    from .variants import VARIANTS as _V
+    all_props = props or sorted({v["prop"] for v in _V})
+    with ProcessPoolExecutor(max_workers=16) as ex:
+        for prop, rc, lines in ex.map(_base_clean, all_props):
+            if rc != 0:
+                bad += 1
+                print(f"BAD {prop:<34} base-tree   exit {rc}     {' | '.join(lines)[:160]}")
+    res = run_audit(props)
     for d in res["details"]:
         flag = "ok " if d["status"] in ("killed", "silent") else ("-- " if d["status"] == "skipped" else "BAD")
         if flag == "BAD":
